@@ -17,11 +17,15 @@ def posLimit : Nat := 1048576
 
 def cfg : Cfg := ⟨CelloGen.File.closeGuarded, CelloGen.File.closeDropsAlways⟩
 
+/-- the `with_in` macro as the translator read it from include/Cello.h: which expression the step clause stops -/
+def cfgW : WithCfg := ⟨if CelloGen.File.withStopsBound then .bound else .source⟩
+
 structure Sys where
   m : Multi Ref                          -- the model state: library, File objects, log of every stdio call
   inWith : List Nat := []                -- subjects of the with-blocks being executed
   depth : Nat := 0
   nontrivial : Nat := 0
+  ev : List WEv := []                    -- what the with loops did (the model's own protocol check runs over this)
 
 def Sys.init : Sys := { m := ⟨Ref.init, [(0, none), (1, none), (2, none), (3, none)], []⟩ }
 
@@ -80,6 +84,10 @@ def parseHex (t : String) : Option (List Byte) :=
       | some x, some y => go rest (UInt8.ofNat (x * 16 + y) :: acc)
       | _, _ => none
   go t.toList []
+
+def parseLeave (t : String) : Option Leave :=
+  if t = "fall" then some .fall else if t = "cont" then some .cont else if t = "brk" then some .brk
+  else if t = "throw" then some .throw else none
 
 def isOpen (s : Sys) (o : Nat) : Bool := match s.obj o with | some (some _) => true | _ => false
 
@@ -173,6 +181,26 @@ where
         | _, _ => bad
       | _ => bad
     else
+    if op = "withnew" || op = "withnew0" || op = "withcall" then
+      if o < nStack || (s.obj o).isSome then return ← bad
+      match rest with
+      | [lvs, ns] =>
+        if op ≠ "withnew0" then return ← bad
+        match parseLeave lvs, ns.toNat? with
+        | some leave, some n => runWith lines i hi s o (.newFile o none) leave n
+        | _, _ => bad
+      | [ks, ms, lvs, ns] =>
+        if op = "withnew0" then return ← bad
+        match ks.toNat?, parseMode ms, parseLeave lvs, ns.toNat? with
+        | some k, some m, some leave, some n =>
+          if !fileOk k then return ← bad
+          if s.depth > 16 then return ← bad
+          if busy s k (some o) then IO.println s!"O {op} busy"; return (s, i + 1)
+          if k = fileFull && !(m = .w || m = .a) then IO.println s!"O {op} unsup"; return (s, i + 1)
+          runWith lines i hi s o (.newFile o (some (k, m))) leave n
+        | _, _, _, _ => bad
+      | _ => bad
+    else
     if (s.obj o).isNone then return ← bad
     let nargs := rest.length
     if op = "del" then
@@ -196,23 +224,12 @@ where
     else if op = "stop" then
       if nargs ≠ 0 then return ← bad
       return (← simple s o "stop" (.op .stop) none, i + 1)
-    else if op = "with" || op = "withx" then
-      match rest with
-      | [ns] =>
-        match ns.toNat? with
-        | none => bad
-        | some n =>
-          if s.depth > 16 then return ← bad
-          let leave := op = "withx"
-          let stop := min (i + 1 + n) hi
-          let s0 ← simple s o "with-enter" (.op .withEnter) none
-          let s1 ← runRange lines (i + 1) stop { s0 with inWith := o :: s0.inWith, depth := s0.depth + 1 }
-          let s1 := { s1 with inWith := s1.inWith.drop 1, depth := s1.depth - 1 }
-          if leave then
-            emit s1 o "with-abort" "ValueError" "" []
-            return (s1, stop)
-          else
-            return (← simple s1 o "with-exit" (.op .withExit) none, stop)
+    else if op = "with" || op = "withx" || op = "withv" then
+      match (if op = "withv" then rest else [if op = "with" then "fall" else "throw"] ++ rest) with
+      | [lvs, ns] =>
+        match parseLeave lvs, ns.toNat? with
+        | some leave, some n => runWith lines i hi s o (.var o) leave n
+        | _, _ => bad
       | _ => bad
     else if op = "seek" then
       match rest with
@@ -287,6 +304,34 @@ where
         return (s', i + 1)
     else bad
 
+  /-- `with (f in <src>) { the next n ops }`: the model's init clause, the body, then — unless the body was left by break or
+      an exception — the model's step clause (`Cello.File.initClause` / `stepClause`, the same functions `execStmt` is made of) -/
+  runWith (lines : Array String) (i hi : Nat) (s : Sys) (o : Nat) (src : Src) (leave : Leave) (n : Nat) : IO (Sys × Nat) := do
+    if s.depth > 16 then IO.println "O bad-op"; return (s, i + 1)
+    let stop := min (i + 1 + n) hi
+    let ic := initClause refIO cfg s.m src
+    let s0 := { s with m := ic.m, ev := s.ev ++ ic.evs }
+    match ic.x with
+    | none =>
+      emit s0 o "with-enter" (excText ic.out) "" ic.calls
+      return (s0, stop)
+    | some x =>
+      emit s0 o "with-enter" "none" "" ic.calls
+      let s1 ← runRange lines (i + 1) stop { s0 with inWith := o :: s0.inWith, depth := s0.depth + 1 }
+      let s1 := { s1 with inWith := s1.inWith.drop 1, depth := s1.depth - 1 }
+      match leave with
+      | .throw =>
+        emit s1 o "with-abort" "ValueError" "" []
+        return ({ s1 with ev := s1.ev ++ [.left leave] }, stop)
+      | .brk =>
+        emit s1 o "with-break" "none" "" []
+        return ({ s1 with ev := s1.ev ++ [.left leave] }, stop)
+      | _ =>
+        let c := stepClause refIO cfg cfgW s1.m src x
+        let s2 := { s1 with m := c.m, ev := s1.ev ++ c.evs }
+        emit s2 o "with-exit" (excText c.out) "" c.calls
+        return (s2, stop)
+
 /-- end of the op file: delete the heap objects, close the stack objects -/
 def finish (s : Sys) : Sys := Id.run do
   let mut s := s
@@ -319,4 +364,6 @@ def main (args : List String) : IO Unit := do
   -- the model's own verdict on its log (used when a proof no longer checks): every object's calls well bracketed
   let okTrack := (List.range nObj).all (fun o => (track none (proj o s.m.log)).isSome)
   IO.println s!"R bracketed={okTrack}"
+  -- … and on the events of its with loops: every source expression evaluated once, every stop_in on the loop variable
+  IO.println s!"R withproto={(wtrack ([], none) s.ev) == some ([], none)}"
   IO.println s!"S reads={s.nontrivial}"
